@@ -171,7 +171,9 @@ pub fn campaign(ctx: &Ctx, runs_total: u64) {
             .arg(root.join("corpus").join(target))
             .arg(format!("-runs={}", per))
             .arg(format!("-seed={}", (mix(ctx.seed, target, w) % 0xffff_fffe) + 1))
-            .args(["-max_len=1500", "-len_control=0", "-timeout=30", "-rss_limit_mb=6000", "-print_final_stats=1"])
+            // fixed work (-runs) with a wall-clock safety cap; reaching the cap only shortens the
+            // campaign (the evidence reports the executions actually done), it is never a verdict
+            .args(["-max_len=1200", "-len_control=0", "-timeout=30", "-rss_limit_mb=6000", "-print_final_stats=1", "-max_total_time=300"])
             .arg(format!("-artifact_prefix={}/", work.join("artifacts").display()))
             .env("ACPIV_FUZZ_PROP", &ctx.prop)
             .env("ACPIV_ROOT", &root)
